@@ -159,7 +159,7 @@ structure DState where
   removed : List (Key × List Nat) := []   -- E-THR: removal records of the running leave_all
   pend : List (Nat × Pending) := []       -- E-THR, model side: per thread, entry done / notify pending
   opend : List (Nat × OPend) := []        -- E-THR, oracle side: the same from the implementation's data
-  owedCode : List Ev := []                -- pre-F6 behaviour: group listeners at the change, world at notify
+  owedCode : List Ev := []                -- pre-F7 behaviour: group listeners at the change, world at notify
   owedStrict : List Ev := []              -- the property: every recipient fixed at the change region
 
 def parseNats? (s : String) : Option (List Nat) := natList? s
@@ -216,7 +216,7 @@ def step (d : DState) (op impl : String) : DState × StepOut :=
       let o3 := if w != ["tend"] then [] else
         let got := showEvs (im.evs.filter aliveI)
         if got == showEvs (d.owedStrict.filter aliveI) then []
-        -- the behaviour before the F6 fix: group listeners at the change, world listeners at notify time
+        -- the behaviour before the F7 fix: group listeners at the change, world listeners at notify time
         else if got == showEvs (d.owedCode.filter aliveI) then ["world-recipients-read-at-notify-time"]
         else ["notification-recipients-not-fixed-at-change"]
       ({ d with acc := [], prev := some im.snap, pend := [], opend := [], owedCode := [], owedStrict := [] },
